@@ -1,5 +1,6 @@
 SPECIFICATION Spec
-CONSTANTS Nodes <- MCNodes
+CONSTANTS ReloadNodes <- MCReload
+          Nodes <- MCNodes
           AddrOf <- MCAddrOf
           AmRelay <- MCAmRelay
           MaxRecs = 2
